@@ -53,6 +53,7 @@ type Concrete struct {
 	HashStr map[int]string
 	ByHash  map[string]int
 	Decl    map[int]Step
+	Unit    *big.Int // real work of work class 1 in this behaviour
 	seed    int64
 }
 
@@ -81,6 +82,23 @@ func Concretise(b *Behaviour, genesis [32]byte, seed int64) *Concrete {
 		}
 	}
 	c.Hash[0] = genesis
+	// Magnitudes of work.  Work classes 1, 2, 4 are 2^233, 2^234, 2^235 (exact multiples, as the specification's integer
+	// arithmetic needs).  A history made of class-1 headers only has no need for exact ratios between classes, so it is
+	// also run with other units: 2 (regtest), 2^31-1, about 2^62.5 (cumulated work then crosses 2^63, 2^64 and 10^20 within
+	// fifteen headers) - the stored decimal strings then have 1, 10, 19-20 and 71 digits.
+	unitBits := workBits[1]
+	allOne := len(c.Decl) > 0
+	for _, s := range c.Decl {
+		if s.Work != 1 {
+			allOne = false
+		}
+	}
+	if allOne {
+		v := (uint64(seed)*2654435761 + uint64(len(c.Decl))*40503) >> 7
+		unitBits = []uint32{workBits[1], 0x207fffff, 0x1d020000, 0x1902d413}[v%4]
+	}
+	c.Unit = WorkOfBits(unitBits)
+	CurUnit = c.Unit
 	var build func(id int, depth int) [32]byte
 	build = func(id int, depth int) [32]byte {
 		if h, ok := c.Hash[id]; ok {
@@ -110,6 +128,8 @@ func Concretise(b *Behaviour, genesis [32]byte, seed int64) *Concrete {
 		h.Nonce = pick32(nonces)
 		if s.Work == 0 {
 			h.Bits = zeroWorkBits[r.Intn(len(zeroWorkBits))]
+		} else if allOne {
+			h.Bits = unitBits
 		} else {
 			h.Bits = workBits[s.Work]
 		}
@@ -155,7 +175,7 @@ func (c *Concrete) Source(id int) domains.BlockHeaderSource {
 	}
 }
 
-// RealWork is work class * 2^233.
-func RealWork(class int) *big.Int { return new(big.Int).Mul(big.NewInt(int64(class)), WorkUnit) }
+// RealWork is work class * the unit of the behaviour being replayed (2^233 unless the history is class-1 only).
+func RealWork(class int) *big.Int { return new(big.Int).Mul(big.NewInt(int64(class)), CurUnit) }
 
 var _ = binary.LittleEndian
